@@ -62,7 +62,7 @@ theorem rangeI_nil (lo hi : Int) (h : hi ≤ lo) : R.rangeI lo hi = [] := by
 theorem shouldStop_best (lim : Limit) (st : SState) : (shouldStop lim st).2.best = st.best := rfl
 
 theorem root_loop_eq (clock : Nat → Nat) (p : Position) (s : R.Settings) (lim : Limit) (fuel : Nat)
-    (hlim : toLimit clock p s = some lim) (hok : OrderOk p) :
+    (hlim : toLimit clock p s = some lim) (hok : OrderOkN fuel p) :
     ∀ (n : Nat) (d : Int) (st : SState) (bm : Option Mv) (infos : List R.Info),
       d + n = 128 → 1 ≤ d → (2 ≤ d → bm.isSome = true) →
       postLoop (R.root_loop1 p s fuel clock (R.rangeI d 128) st infos bm) =
@@ -122,7 +122,7 @@ theorem root_loop_eq (clock : Nat → Nat) (p : Position) (s : R.Settings) (lim 
 
 /-- the regenerated driver, projected to what the model keeps, is the model's `root`. -/
 theorem agree_root (clock : Nat → Nat) (p : Position) (s : R.Settings) (lim : Limit) (fuel : Nat)
-    (hlim : toLimit clock p s = some lim) (hok : OrderOk p) (hist : List BB) (tt : Table TTEntry) :
+    (hlim : toLimit clock p s = some lim) (hok : OrderOkN fuel p) (hist : List BB) (tt : Table TTEntry) :
     (R.root clock p hist tt s fuel).map
         (fun r => (⟨r.1.toOption, r.2.2.2.map infoToModel, r.2.1, r.2.2.1⟩ : RootResult)) =
       root lim fuel p hist tt := by
